@@ -538,6 +538,10 @@ func (w *World) advArgs(key string, val []byte) ([]byte, []byte) {
 		w.vbuf = make([]byte, len(val)*2)
 		w.poison()
 	}
+	if len(key) > cap(w.kbuf) {
+		w.kbuf = make([]byte, len(key)+16)
+		w.poison()
+	}
 	k := w.kbuf[:len(key)]
 	copy(k, key)
 	v := w.vbuf[:len(val)]
